@@ -11,7 +11,7 @@ CONSTANTS
   EnvShift = 0
   SkipLastBond = FALSE
   DropInnerTag = FALSE
-  AliasExcused = TRUE
+  StoreByRef = FALSE
   Emit = FALSE
 INVARIANT SelectUnique
 CHECK_DEADLOCK FALSE
